@@ -23,7 +23,7 @@ vars == <<tid, l, flagged, freshFlagged, verdict>>
 
 \* root classes: what the running simulation effectively read; in this order
 Root == <<"driver", "account-type", "leverage", "leverage-mode", "fee-rate", "fee-in-trades", "balance",
-          "warmup-size", "warmup-visible", "routes", "shared-vars", "hyperparameters", "strategy-state",
+          "warmup-size", "warmup-visible", "routes", "shared-vars", "debug-mode", "hyperparameters", "strategy-state",
           "strategy-metrics", "arguments-modified", "inputs">>
 \* result classes: the returned value and the order/trade trace
 \* ("returned-value": every key of the returned dict other than 'metrics', with its value)
@@ -32,11 +32,11 @@ Result == <<"exception", "first-step", "margin", "orders", "trades", "metrics", 
 All == Root \o Result
 \* a difference in one of these explains any difference in the result classes
 Behavioural == {"driver", "account-type", "leverage", "leverage-mode", "fee-rate", "fee-in-trades", "balance",
-                "warmup-size", "warmup-visible", "routes", "hyperparameters", "strategy-state", "strategy-metrics",
-                "inputs"}
+                "warmup-size", "warmup-visible", "routes", "debug-mode", "hyperparameters", "strategy-state",
+                "strategy-metrics", "inputs"}
 \* the classes Session.tla talks about
 Modelled == {"driver", "account-type", "leverage", "leverage-mode", "fee-rate", "fee-in-trades", "balance",
-             "warmup-size", "warmup-visible", "routes", "shared-vars"}
+             "warmup-size", "warmup-visible", "routes", "shared-vars", "debug-mode"}
 
 T == Traces[tid]
 A == T.after
@@ -55,6 +55,7 @@ Field(r, c) ==
     [] c = "warmup-visible" -> r.visible
     [] c = "routes" -> r.routes
     [] c = "shared-vars" -> r.shared
+    [] c = "debug-mode" -> r.debug
     [] c = "hyperparameters" -> r.hp
     [] c = "strategy-state" -> r.strategy_state        \* portfolio value, self.trades, daily balances, self.vars,
                                                        \* containers on the strategy classes - at the first step
@@ -93,6 +94,7 @@ Unseen(r, c) ==
          [] c = "warmup-visible" -> r.visible # E.visible
          [] c = "routes" -> r.routes # E.routes
          [] c = "shared-vars" -> r.shared # <<>>
+         [] c = "debug-mode" -> r.debug # E.debug
          [] c = "hyperparameters" -> r.hp # E.hp
          [] OTHER -> FALSE
 
@@ -124,7 +126,9 @@ Add(v, c) == IF v = "" THEN c ELSE v \o "|" \o c
 Step ==
   /\ l <= Len(All)
   /\ LET c == All[l]
-         hit == IF IsRoot(c) THEN Differs(c) \/ (~T.hdr.relational /\ Unseen(A, c))
+         hit == IF c = "strategy-metrics"      \* read later in the run: only named when nothing seen earlier explains it
+                THEN ~Explained /\ Differs(c)
+                ELSE IF IsRoot(c) THEN Differs(c) \/ (~T.hdr.relational /\ Unseen(A, c))
                 ELSE ~Explained /\ Differs(c) /\ ~(\E k \in 1..(l - 1) : ~IsRoot(All[k]) /\ All[k] \in flagged)
          fhit == IsRoot(c) /\ ~T.hdr.relational /\ Unseen(F, c)
      IN /\ flagged' = IF hit THEN flagged \cup {c} ELSE flagged
@@ -138,7 +142,6 @@ Outcome(x) == IF x = "none" THEN "none" ELSE "exc"
 ModelAgrees ==
   IF ~T.hdr.has_pred THEN "n/a"
   ELSE IF [i \in DOMAIN A.hist_exc |-> Outcome(A.hist_exc[i])] # T.hdr.pred_excs THEN "outcomes-differ"
-  ELSE IF A.has_obs /\ A.debug # T.hdr.pred_debug THEN "debug-mode-differs"
   ELSE IF flagged \cap Modelled = SeqToSet(T.hdr.pred_stale) THEN "as-is"
   ELSE IF flagged \cap Modelled = {} THEN "intended"
   ELSE "neither"
